@@ -48,7 +48,7 @@ def solver_coroutines(crate):
 
 def no_await_in_loop(ctx, crate, tag):
     cos = solver_coroutines(crate)
-    ctx.floor("no-await-in-loop" + tag, "solver-path coroutines", len(cos), 11)
+    ctx.floor("no-await-in-loop" + tag, "solver-path coroutines", len(cos), 8)
     n_y = 0
     for b in cos:
         loops = b.loops()
@@ -71,7 +71,7 @@ def no_await_in_loop(ctx, crate, tag):
             ctx.ob("no-await-in-loop" + tag, b.key, "yield@%s" % _await_name(b, y), is_drain, b.loc(y),
                    "the only await inside a loop is the drain of pending_futures" if is_drain else
                    "an .await sits inside a loop: requests behind it are serialised")
-    ctx.floor("no-await-in-loop" + tag, "suspension points on the solver path", n_y, 14)
+    ctx.floor("no-await-in-loop" + tag, "suspension points on the solver path", n_y, 10)
     # the initial queueing loop of encode must not suspend (all explicit solvables are queued first)
     enc = body_by_key(crate, ENC + "encode", coroutine=True)
     if enc is not None:
